@@ -233,7 +233,24 @@ func (k *v3Parsed) open(password []byte) ([]byte, bool) {
 	if !bytes.Equal(keccak(dk[16:32], k.ct), k.mac) {
 		return nil, false
 	}
-	return addrOfPriv(aesCTR(dk[:16], k.iv, k.ct)), true
+	priv := aesCTR(dk[:16], k.iv, k.ct)
+	if zeroScalar(priv) {
+		// (referee round) zero modulo the group order is not a private key: nothing it signs recovers to an
+		// address.  The wallet refuses such a file after decrypting it (fix 362ef7a); the oracle "keystore
+		// reader" of the model stands for ReadWalletFile followed by that check.
+		return nil, false
+	}
+	return addrOfPriv(priv), true
+}
+
+// zeroScalar: the scalar btcec derives from the decrypted bytes (the first 32 bytes, big-endian, reduced
+// modulo the group order n) is zero — computed with math/big, not with the curve library.
+func zeroScalar(priv []byte) bool {
+	if len(priv) > 32 {
+		priv = priv[:32]
+	}
+	n, _ := new(big.Int).SetString("fffffffffffffffffffffffffffffffebaaedce6af48a03bbfd25e8cd0364141", 16)
+	return new(big.Int).Mod(new(big.Int).SetBytes(priv), n).Sign() == 0
 }
 
 // ---------- regexp / template / metadata / JSON string oracles ----------
